@@ -156,6 +156,12 @@ class RawHeaderPacketReceiver(Elaboratable):
 
                 m.next = "WAIT_FOR_HPSTART"
 
+                # Header packets can arrive back-to-back; so the word we're seeing now may already be
+                # the start of the next header packet. Prepare our CRC for it, and don't miss it.
+                m.d.comb += crc16.clear.eq(1)
+                with m.If(stream_matches_symbols(sink, SHP, SHP, SHP, EPF)):
+                    m.next = "RECEIVE_DW0"
+
 
         return m
 
